@@ -242,6 +242,13 @@ theorem inv_step (fx : Bool) (s : S) (h : Inv s) (l : Label) : Inv (step fx s l)
         (by intro hc; simp at hc) rfl
       exact inv_handleDisconnect fx _ h1 c (by simp [S.setConn])
     · exact h
+  | readSilent c =>
+    simp only [step]
+    split
+    · rename_i hk
+      simp only [Bool.and_eq_true, Bool.not_eq_eq_eq_not, Bool.not_true] at hk
+      exact inv_setConn s h c _ hk.1.1 rfl hk.1.1 (fun hc => hc) rfl
+    · exact h
   | learn p n =>
     simp only [step]
     split
